@@ -74,7 +74,15 @@ def document(children, cp_t, target, target_t, nested, ancestors):
         cp_attrs += f' transform="{T1}"'
     defs = ""
     if nested:
-        defs += '<clipPath id="c2"><ellipse cx="52" cy="48" rx="38" ry="24"/></clipPath>'
+        # the clipPath referenced by the clipPath: a plain region, or one where the fill rule matters and which
+        # has (or has not) a rule of its own - independent of the rule of the referencing clipPath
+        inner = {
+            True: '<clipPath id="c2"><ellipse cx="52" cy="48" rx="38" ry="24"/></clipPath>',
+            "star": '<clipPath id="c2"><polygon points="50,5 76,90 8,36 92,36 24,90"/></clipPath>',
+            "star-eo": '<clipPath id="c2" clip-rule="evenodd"><polygon points="50,5 76,90 8,36 92,36 24,90"/></clipPath>',
+            "ring-childeo": '<clipPath id="c2"><path clip-rule="evenodd" d="M10,10 H90 V90 H10 Z M40,40 H60 V60 H40 Z"/><rect x="44" y="44" width="4" height="4"/></clipPath>',
+        }[nested]
+        defs += inner
         cp_attrs += ' clip-path="url(#c2)"'
     defs += f'<clipPath id="c1"{cp_attrs}>{kids}</clipPath>'
     tpl, tdefs = TARGETS[target]
@@ -98,6 +106,10 @@ def all_cases(tier):
                 continue
             for cp_t, target, anc in itertools.product((False, True), ("shape", "group", "twins"), (0, 1)):
                 yield ([(a, ra, False), (b, rb, False)], cp_t, target, False, False, anc)
+    # clipPath referencing a clipPath: rule of the outer one x rule situation of the inner one
+    for (s, r) in [(s, r) for s in ("rect", "star", "nested") for r in RULES]:
+        for nested, cp_t, target, anc in itertools.product(("star", "star-eo", "ring-childeo"), (False, True), ("shape", "group") if tier == "quick" else TARGETS, (0, 1)):
+            yield ([(s, r, False)], cp_t, target, False, nested, anc)
     child1 = [(s, r) for s in shapes for r in RULES]
     # k = 1: full product
     for (s, r), tchild, cp_t, target, target_t, nested, anc in itertools.product(child1, (False, True), (False, True), TARGETS, (False, True), (False, True), (0, 1, 2)):
@@ -138,7 +150,7 @@ def evaluate(case):
     children = [tuple(x) for x in c[0]]
     doc = document(children, *c[1:])
     inherit = any(r == "eo-inherit" for _, r, _ in children)
-    rec = RC.record(doc, case["tier"], case["seed"], sig_extra={"family": "clip", "clip_rule_on_clippath": inherit, "nested": c[4], "ancestors": c[5]}, case_extra={"c": c})
+    rec = RC.record(doc, case["tier"], case["seed"], sig_extra={"family": "clip", "clip_rule_on_clippath": inherit, "nested": bool(c[4]), "ancestors": c[5]}, case_extra={"c": c})
     # vacuity: does the clip remove and keep points of the unclipped target?
     if rec["nt"] is not None:
         try:
